@@ -359,36 +359,48 @@ def solve_one(job):
     t0 = time.time()
     ctx = z3.Context()
     res = {'uid': uid, 'status': 'unknown', 'backend': 'z3-5.1', 'reason': '', 'model': None, 'tries': []}
-    try:
-        asts = z3.parse_smt2_string(smt2, ctx=ctx)
-        s = z3.Solver(ctx=ctx)
-        s.set('timeout', int(tlimit * 1000))
-        s.add(asts)
-        r = s.check()
-        st = str(r)
-        res['tries'].append(('z3-5.1', st, round(time.time() - t0, 3)))
-        if st == 'unknown':
-            res['reason'] = s.reason_unknown()
-        if st == 'sat':
-            res['model'] = _extract_model(s.model(), list(asts), observables, ctx)
-        res['status'] = st
-    except z3.Z3Exception as ex:
-        res['reason'] = 'z3 exception: %s' % ex
-    if res['status'] == 'unknown' and portfolio:
-        text = '(set-logic ALL)\n' + smt2
+    def z3py(limit, tag, seed=None):
         t1 = time.time()
-        r2 = _run_cli(['/usr/bin/cvc5', '--tlimit=%d' % int(tlimit * 1000), '--enum-inst'], text, tlimit)
-        res['tries'].append(('cvc5-1.0.3', r2, round(time.time() - t1, 3)))
-        if r2 == 'unsat':
-            res['status'], res['backend'] = 'unsat', 'cvc5-1.0.3'
+        try:
+            asts = z3.parse_smt2_string(smt2, ctx=ctx)
+            s = z3.Solver(ctx=ctx)
+            s.set('timeout', int(limit * 1000))
+            if seed is not None:
+                s.set('random_seed', seed)
+            s.add(asts)
+            r = s.check()
+            st = str(r)
+            res['tries'].append((tag, st, round(time.time() - t1, 3)))
+            if st == 'unknown':
+                res['reason'] = s.reason_unknown()
+            if st == 'sat':
+                res['model'] = _extract_model(s.model(), list(asts), observables, ctx)
+            return st
+        except z3.Z3Exception as ex:
+            res['reason'] = 'z3 exception: %s' % ex
+            return 'unknown'
+    # portfolio: z3 5.1 (short) -> z3 4.8 -> cvc5 -> z3 5.1 (full budget, other seed)
+    first = tlimit if not portfolio else max(3.0, tlimit / 4.0)
+    res['status'] = z3py(first, 'z3-5.1')
+    if res['status'] == 'unknown' and portfolio:
+        t1 = time.time()
+        r3 = _run_cli(['/usr/bin/z3', '-T:%d' % int(tlimit), 'smt.random_seed=7'], smt2, tlimit)
+        res['tries'].append(('z3-4.8.12', r3, round(time.time() - t1, 3)))
+        if r3 == 'unsat':
+            res['status'], res['backend'] = 'unsat', 'z3-4.8.12'
         else:
+            text = '(set-logic ALL)\n' + smt2
             t1 = time.time()
-            r3 = _run_cli(['/usr/bin/z3', '-T:%d' % int(tlimit), 'smt.random_seed=7'], smt2, tlimit)
-            res['tries'].append(('z3-4.8.12', r3, round(time.time() - t1, 3)))
-            if r3 == 'unsat':
-                res['status'], res['backend'] = 'unsat', 'z3-4.8.12'
-            elif r3 == 'sat' and res['status'] != 'sat':
-                res['status'], res['backend'] = 'sat', 'z3-4.8.12'
+            r2 = _run_cli(['/usr/bin/cvc5', '--tlimit=%d' % int(tlimit * 1000), '--enum-inst'], text, tlimit)
+            res['tries'].append(('cvc5-1.0.3', r2, round(time.time() - t1, 3)))
+            if r2 == 'unsat':
+                res['status'], res['backend'] = 'unsat', 'cvc5-1.0.3'
+            else:
+                st = z3py(tlimit, 'z3-5.1(seed 11)', seed=11)
+                if st in ('sat', 'unsat'):
+                    res['status'] = st
+                elif r3 == 'sat':
+                    res['status'], res['backend'] = 'sat', 'z3-4.8.12'
     res['time'] = round(time.time() - t0, 3)
     return res
 
